@@ -86,8 +86,9 @@ def handle (fn : String) (a : Json) : Option (Except String Json) :=
     | none => throw s!"unknown pattern {name}"
   | "schema.members" => some do
     -- {"doc": dict}  ->  the string keys `BaseSpecList.__init__` instantiates (`specListMembers`)
+    let top := (a.getObjValAs? Bool "list").toOption.getD false
     match (← valOf (← a.getObjVal? "doc")) with
-    | .obj kvs => pure (.arr ((specListMembers kvs).map (fun kv => match kv.1 with
+    | .obj kvs => pure (.arr ((if top then listSpecMembers kvs else specListMembers kvs).map (fun kv => match kv.1 with
         | .s k => Json.str k
         | .ns r => Json.mkObj [("ns", .str r)])).toArray)
     | _ => throw "not a dict"
